@@ -151,6 +151,39 @@ def render(n, depth=0):
     return "%s(%s)" % (k, ", ".join(r(x) for x in ks[:4]))
 
 
+def switch_sections(sw):
+    """For a SwitchStmt: {case value or 'default': [statements executed from that
+    label up to the first break/continue/goto/return]} (fall-through followed)."""
+    body = kids(sw)[-1]
+    flat = []          # (labels or None, stmt)
+    def add(stmt, labels):
+        while stmt is not None and stmt["k"] in ("CaseStmt", "DefaultStmt"):
+            if stmt["k"] == "CaseStmt":
+                labels = labels + [cv(kids(stmt)[0])]
+            else:
+                labels = labels + ["default"]
+            stmt = kids(stmt)[-1] if kids(stmt) else None
+        flat.append((labels, stmt))
+    for st in kids(body) if body["k"] == "CompoundStmt" else [body]:
+        add(st, [])
+    out = {}
+    for i, (labels, stmt) in enumerate(flat):
+        if not labels:
+            continue
+        seq = []
+        j = i
+        while j < len(flat):
+            st = flat[j][1]
+            if st is not None:
+                seq.append(st)
+                if st["k"] in ("BreakStmt", "ContinueStmt", "GotoStmt", "ReturnStmt"):
+                    break
+            j += 1
+        for l in labels:
+            out[l] = seq
+    return out
+
+
 def where(n):
     return n.get("l", "?") if n else "?"
 
